@@ -111,7 +111,7 @@ def generate(tier, seed):
         for fam in FAMILIES:
             pr = rand_prior(rnd, fam)
             pos = rnd.random() < 0.3
-            cases.append({"kind": "single", "prior": pr, "positive": pos, "values": values_for(rnd, pr) + ([(-abs(rnd.uniform(0.1, 5)), "negative")] if pos else []),
+            cases.append({"kind": "single", "prior": pr, "positive": pos, "values": values_for(rnd, pr) + ([(-abs(rnd.uniform(0.1, 5)), "negative"), (-rnd.uniform(0.001, 0.99), "negative"), (-rnd.uniform(1.01, 30), "negative")] if pos else []),
                           "cost": (i % 6 == 0)})
     for i in range(n * 3):
         k = rnd.randint(2, 4)
